@@ -183,8 +183,8 @@ var ttmlAttrNames = []string{"backgroundColor", "color", "direction", "display",
 	"textDecoration", "textOutline", "unicodeBidi", "visibility", "wrapOption", "writingMode", "zIndex"}
 
 var ttmlAttrValues = map[string][]string{
-	"extent":      {"100% 10%", "80% 23%", "50%", "10% -7%", "640px 480px", "", "a b c", "30%  5%"},
-	"origin":      {"0% 90%", "10% 80%", " 5% 5% ", "12%", "", "1 2 3"},
+	"extent":      {"100% 10%", "80% 23%", "50%", "10% -7%", "640px 480px", "", "a b c", "30%  5%", "50% ", " 50%", " "},
+	"origin":      {"0% 90%", "10% 80%", " 5% 5% ", "12%", "", "1 2 3", "12% ", " 12%", "  "},
 	"writingMode": {"lrtb", "tbrl", "tb", "rl", ""},
 	"textAlign":   {"center", "left", "right", "start", ""},
 	"zIndex":      {"0", "1", "-3", "42", "+7"},
